@@ -5,9 +5,17 @@ from hypothesis import strategies as st
 from ..run import Prop
 from ..common import PropertyViolation
 
+# text that is itself JSON (a pre-serialised payload, a forwarded message) is still just text
+_inner = st.recursive(st.one_of(st.none(), st.booleans(), st.integers(-9, 99), st.text(max_size=4)),
+                      lambda ch: st.one_of(st.lists(ch, max_size=3),
+                                           st.dictionaries(st.sampled_from(["a", "b", "signal_name", "payload"]),
+                                                           ch, max_size=3)), max_leaves=5)
+jsonish_text = st.one_of(_inner.map(json.dumps),
+                         st.sampled_from(["{}", "[]", "null", "true", "42", "1e5", '""', "{", "[1,", '{"a": 1}x', " [1] "]))
+
 json_payload = st.recursive(
   st.one_of(st.none(), st.booleans(), st.integers(), st.floats(allow_nan=False, allow_infinity=False),
-            st.text()),
+            st.text(), jsonish_text),
   # keys include the ones the wire format itself uses: a payload may carry a forwarded event record
   lambda ch: st.one_of(st.lists(ch, max_size=4),
                        st.dictionaries(st.one_of(st.text(max_size=6),
@@ -41,12 +49,15 @@ class C26(Prop):
   thorough_examples = 20000
   rule = ("Hypothesis st.text() signal names (any Unicode except surrogates, including the empty "
           "string and names of built-in signals) x recursive JSON-representable payloads (None, "
-          "booleans, arbitrary-size integers, finite floats, text, lists, string-keyed dicts whose keys include 'signal_name' and "
+          "booleans, arbitrary-size integers, finite floats, text - including text that is itself JSON such as "
+          "'{\"a\": 1}', '[]' or 'null' -, lists, string-keyed dicts whose keys include 'signal_name' and "
           "'payload' themselves; up to 12 leaves), sent through Event.dumps then Event.loads; a third of the cases instead "
           "build the JSON text by hand (as a foreign process would) for a name that may be new. "
           "Oracle (round-trip): same signal name, payload equal with identical JSON types, signal "
           "number equal to the number this process binds to that name (unchanged for known names, "
-          "newly registered for new ones), and the binding of every other name unchanged. "
+          "newly registered for new ones), and the binding of every other name unchanged; the same text "
+          "decoded a second time, after the first decoded event's payload was modified in place, gives the "
+          "original payload again. "
           "Non-trivial: payload nesting depth >= 2, or a non-ASCII name, or a name first registered "
           "by loads; distinct = distinct (name, payload) digests.")
   assumptions = ["tuples are not generated (JSON has no tuple)", "NaN/inf are excluded by the statement"]
@@ -95,6 +106,23 @@ class C26(Prop):
     if e is not None and e.signal != e2.signal:
       raise PropertyViolation("name %r: number %r before, %r after the round trip" % (
         name, e.signal, e2.signal), "C26:number")
+    # every decode builds its own event: changing one decoded event does not change what the
+    # same text decodes to next time
+    try:
+      if isinstance(e2.payload, list):
+        e2.payload.append("vf-mutated")
+      elif isinstance(e2.payload, dict):
+        e2.payload["vf-mutated"] = 1
+      else:
+        e2.payload = "vf-mutated"
+      e3 = Event.loads(text)
+    except Exception as ex:
+      raise PropertyViolation("name %r payload %r: second decode raised %s: %s" % (
+        name, payload, type(ex).__name__, ex), "C26:raised")
+    if e3 is e2 or e3.signal_name != name or not same(e3.payload, payload) or e3.signal != signals[name]:
+      raise PropertyViolation("name %r payload %r: decoding the same text again, after the first decoded "
+                              "event was modified, gave name %r payload %r" % (
+                                name, payload, e3.signal_name, e3.payload), "C26:payload")
     for k, v in before.items():
       if signals.get(k) != v:
         raise PropertyViolation("loading %r changed the binding of %r: %r -> %r" % (
